@@ -410,7 +410,10 @@ def an_gapfill(model, a, p):
     from cobra.flux_analysis import gapfill
 
     uni = hist.build_model(a["universal"])
-    r = gapfill(model, uni, demand_reactions=a.get("demand", False))
+    kw = {}
+    if a.get("penalties"):
+        kw["penalties"] = dict(a["penalties"])
+    r = gapfill(model, uni, demand_reactions=a.get("demand", False), **kw)
     return {"unique": {}, "other": {"sets": [sorted(x.id for x in s) for s in r]}}
 
 
@@ -521,6 +524,15 @@ class World:
                     self.model.slim_optimize()
                 self.stats["probe:aged_parent"] += 1
             return
+        if kind == "pre_fix_objective":
+            from cobra.util.solver import fix_objective_as_constraint
+
+            try:
+                fix_objective_as_constraint(self.model, fraction=op.get("fraction", 0.9))
+                self.stats["probe:preexisting_fixed_objective_constraint"] += 1
+            except Exception:
+                pass
+            return
         if kind == "bg_knockout":
             gid = op.get("g")
             if gid and self.model.genes.has_id(gid):
@@ -565,6 +577,7 @@ class World:
             return
         p = op.get("processes")
         before = S.snap(self.model)
+        g_before = global_state() if "unchanged" in self.oracles else None
         ctx.solver_calls = 0
         ctx.call_log = []
         ctx.fault = op.get("fault")
@@ -601,6 +614,12 @@ class World:
                 raise Violation("unchanged", {"what": f"{kind} left the model changed" + (" (after an injected solver verdict)" if faulted else "")
                                               + (f" (it raised {type(raised).__name__})" if raised else ""),
                                               "diff(before,after)": d[:8], "fault": op.get("fault")}, culprit=_pub(op))
+            g_after = global_state()
+            if g_after != g_before:
+                ch = sorted(k for k in set(g_before) | set(g_after) if g_before.get(k) != g_after.get(k))
+                raise Violation("unchanged", {"what": f"{kind} modified process-global state of the library (a default that later calls read)",
+                                              "changed": ch[:5], "before": {k: (g_before.get(k) or "")[:200] for k in ch[:3]},
+                                              "after": {k: (g_after.get(k) or "")[:200] for k in ch[:3]}}, culprit=_pub(op))
             self.stats["probe:unchanged_checked"] += 1
         elif S.diff(before, after, limit=1):
             # restoration is C13's business.  The value oracles of this property keep judging against the reference as it stands
@@ -892,6 +911,29 @@ class StopRun(Exception):
     pass
 
 
+def global_state():
+    """Digest of the module-level mutable containers of every loaded cobra module (process-global defaults, registries).
+    An analysis that is not documented to modify anything must not modify these either: a leaked default changes what the
+    *next* call on any model returns."""
+    import sys
+
+    out = {}
+    for name, mod in sorted(sys.modules.items()):
+        if not (name == "cobra" or name.startswith("cobra.")) or mod is None:
+            continue
+        for attr, val in sorted(vars(mod).items()):
+            if attr.startswith("__") or not isinstance(val, (dict, list, set)):
+                continue
+            try:
+                r = repr(sorted(val.items(), key=repr) if isinstance(val, dict) else sorted(val, key=repr) if isinstance(val, set) else val)
+            except Exception:
+                continue
+            if len(r) > 20000 or " at 0x" in r:
+                continue  # registries of objects: identity-dependent, not a default
+            out[f"{name}.{attr}"] = r
+    return out
+
+
 def _pub(op):
     return {k: v for k, v in op.items() if not k.startswith("_")}
 
@@ -935,7 +977,7 @@ def make_swarm(rng, prop, run_cfg):
     return {"max_mets": rng.randint(2, 5), "max_rxns": rng.randint(1, 5), "n_genes": rng.randint(2, 5),
             "p_rule": rng.choice([0.4, 0.7, 0.95]) if prop in ("C06", "C14", "C13") else 0.3,
             "p_infinite": rng.choice([0.0, 0.1, 0.3]), "solver": rng.choice(["glpk", "glpk", "glpk", "glpk_exact"]),
-            "user_ctx": rng.random() < 0.4, "aged": rng.random() < 0.5, "bg_knockout": rng.random() < 0.3, "p_empty_objective": 0.12 if prop == "C13" else 0.04,
+            "user_ctx": rng.random() < 0.4, "aged": rng.random() < 0.5, "bg_knockout": rng.random() < 0.3, "pre_fix": rng.random() < 0.3, "p_empty_objective": 0.12 if prop == "C13" else 0.04,
             "platform": rng.choice(["Linux", "Linux", "Windows"]), "n_variants": rng.randint(2, 5)}
 
 
@@ -1021,6 +1063,8 @@ def _gen_call(rng, W, prop):
                          "mets": [[m, c] for m, c in zip(rng.sample(sorted(ref.mets), min(2, len(ref.mets))), (-1, 1))], "tree": None}],
                "objective": {"U0": 1}, "direction": "max", "groups": []}
         a.update(universal=uni, demand=rng.random() < 0.5)
+        if rng.random() < 0.5:
+            a["penalties"] = {rng.choice(["universal", "exchange", "demand", "U0"]): rng.choice([1, 5, 50])}
     elif kind == "summary":
         a.update(fva=rng.choice([None, None, 0.9]), met=rng.choice(sorted(ref.mets)), rxn=rng.choice(rids))
     elif kind == "sample":
@@ -1045,13 +1089,18 @@ def gen_ops(rng, W, prop, sw, run_cfg):
         yield {"op": "platform", "name": "Windows"}
     if sw.get("bg_knockout") and W.ref.genes:
         yield {"op": "bg_knockout", "g": rng.choice(sorted(W.ref.genes))}
+    pre_fix = prop == "C13" and sw.get("pre_fix")
+    if pre_fix:
+        # the user pinned the objective of the model *as it is now*; the model is not edited afterwards in such runs (a pin that a
+        # later edit contradicts makes the model infeasible, where "the same result twice" is not defined)
+        yield {"op": "pre_fix_objective", "fraction": rng.choice([0.9, 0.5, 1.0])}
     if sw["aged"]:
         yield {"op": "age", "r": rng.choice(sorted(W.ref.rxns)), "dir": rng.choice(["max", "min"])}
     if sw["user_ctx"] and prop in ("C13",):
         yield {"op": "user_enter", "r": rng.choice(sorted(W.ref.rxns)), "ub": rng.choice([500, 5, 50])}
     n_calls = rng.randint(1, 3)
     for ci in range(n_calls):
-        if rng.random() < 0.35:
+        if rng.random() < 0.35 and not pre_fix:
             # leave the solver with an optimal solution of the current model, then tighten the model
             r = rng.choice(sorted(W.ref.rxns))
             x = W.ref.rxns[r]
